@@ -277,3 +277,34 @@ def iup_optimize_tolerance(shape, free, tol):
         else:
             deltas.append(FIXED_D[i])
     _iup_check(coords, deltas, Fr(tol) if not isinstance(tol, int) else tol)
+
+
+# ------------------------------------------------------------------------------------------------ sparse masters (shared with C10)
+from harness import C10_build as _c10
+
+
+@kernel('C09', funcs=['varLib/models.py:VariationModel.getSubModel', 'varLib/models.py:VariationModel.getDeltasAndSupports', 'varLib/models.py:VariationModel.reorderMasters',
+                       'varLib/models.py:VariationModel.getDeltas'],
+        bounds='sparse master sets (None entries) on lattice location sets, symbolic master values, incl. a sparse query, reorderMasters, and a second sparse '
+               'query with the same presence flags: the deltas and supports returned evaluate exactly to every present master (see C10.sparse_masters_reproduced)',
+        quick=[dict(locs='1d4u', present='1011', order=[0, 2, 1, 3]), dict(locs='2d4', present='1101', order=None)],
+        thorough=[dict(locs=l, present=p, order=o) for l, p, o in (('1d3', '110', None), ('2d4', '1011', [0, 2, 1, 3]), ('1d4u', '1011', [0, 2, 1, 3]), ('2d5', '11101', [0, 2, 1, 3, 4]))])
+def sparse_submodels_exact(locs, present, order):
+    _c10.sparse_masters_reproduced(locs, present, order)
+
+
+CONTOURS['quad-irregular'] = [(0, 10), (100, 60), (40, 20), (10, 50)]
+CONTOURS['quad-skew'] = [(0, 0), (90, 10), (70, 80), (-20, 40)]
+
+
+@kernel('C09', funcs=F_IUP,
+        bounds='the case WITHOUT forced points (every delta small): contours of 3-5 points from the listed shapes, ALL point deltas symbolic INTEGERS in '
+               '[-r, r]^2 (r = 1 quick, 2 thorough), tolerance 1/2 (the default): every reconstructed delta within tolerance, kept deltas unchanged',
+        shims=['complex -> SComplex, abs(complex) compared through squares'],
+        quick=[dict(shape=s, r=1) for s in ('tri', 'diamond', 'quad-irregular')],
+        thorough=[dict(shape=s, r=r) for s in ('tri', 'diamond', 'quad-irregular', 'quad-skew', 'penta') for r in (1, 2)],
+        max_paths=400000, timeout_ms=60000)
+def iup_optimize_small_deltas(shape, r):
+    coords = list(CONTOURS[shape])
+    deltas = [(V.int('dx%d' % i, -r, r, bv=False), V.int('dy%d' % i, -r, r, bv=False)) for i in range(len(coords))]
+    _iup_check(coords, deltas, Fr(1, 2))
